@@ -335,7 +335,16 @@ func (k *Keeper) ApplyEvmMsg(
 	// take over the nonce management from evm:
 	// - reset sender's nonce to msg.Nonce() before calling evm.
 	// - increase sender's nonce by one no matter the result.
-	evmObj.StateDB.SetNonce(msg.From(), msg.Nonce())
+	// - a contract creation increments it inside evm.Create; for a call it is
+	//   incremented BEFORE the call, as go-ethereum's state transition does, so
+	//   that the code being run sees the sender with its final nonce (e.g. the
+	//   sender of a first transaction that spent its whole balance is not an
+	//   "empty" account: no new-account gas for value sent back to it).
+	if contractCreation {
+		evmObj.StateDB.SetNonce(msg.From(), msg.Nonce())
+	} else {
+		evmObj.StateDB.SetNonce(msg.From(), msg.Nonce()+1)
+	}
 
 	var returnBz []byte
 	var vmErr error
